@@ -130,6 +130,36 @@ impl Server {
     }
 }
 
+/// When enabled (C03), every request and response crossing the client/server boundary is encoded
+/// with the protocol's own wire encoding and kept: (kind, bytes).
+pub static WIRETAP: StdMutex<Option<Vec<(String, Vec<u8>)>>> = StdMutex::new(None);
+macro_rules! tap {
+    ($kind:expr, $value:expr) => {
+        if WIRETAP.lock().unwrap().is_some() {
+            use sos_protocol::WireEncodeDecode;
+            if let Ok(bytes) = $value.clone().encode().await {
+                if let Some(v) = WIRETAP.lock().unwrap().as_mut() {
+                    v.push(($kind.to_string(), bytes));
+                }
+            }
+        }
+    };
+}
+
+/// CreateSet is not Clone: a field-wise copy for the wiretap
+struct CsClone<'a>(&'a CreateSet);
+impl CsClone<'_> {
+    fn clone(&self) -> CreateSet {
+        CreateSet {
+            identity: self.0.identity.clone(),
+            account: self.0.account.clone(),
+            device: self.0.device.clone(),
+            files: self.0.files.clone(),
+            folders: self.0.folders.clone(),
+        }
+    }
+}
+
 /// Turnstile passed before every request (C09 drives it; otherwise open).
 #[derive(Clone, Default)]
 pub struct Gate(pub Option<Arc<dyn Fn(&str, &str) -> futures::future::BoxFuture<'static, ()> + Send + Sync>>);
@@ -170,6 +200,7 @@ impl SyncClient for DirectClient {
         if slot.is_some() {
             return Err(net_err("account exists"));
         }
+        tap!("create-req", CsClone(&account));
         let target = self.server.target.clone().with_account_id(&self.server.account_id);
         let st = ServerStorage::create_account(target, &self.server.account_id, &account)
             .await
@@ -179,6 +210,7 @@ impl SyncClient for DirectClient {
     }
     async fn update_account(&self, account: UpdateSet) -> Result<(), Self::Error> {
         self.enter("update").await;
+        tap!("update-req", account);
         let a = self.acct().await?;
         let mut w = a.write().await;
         let mut outcome = MergeOutcome::default();
@@ -189,7 +221,9 @@ impl SyncClient for DirectClient {
         self.enter("fetch").await;
         let a = self.acct().await?;
         let r = a.read().await;
-        r.create_set().await.map_err(net_err)
+        let set = r.create_set().await.map_err(net_err)?;
+        tap!("fetch-resp", CsClone(&set));
+        Ok(set)
     }
     async fn delete_account(&self) -> Result<(), Self::Error> {
         self.enter("delete").await;
@@ -203,30 +237,40 @@ impl SyncClient for DirectClient {
         self.enter("status").await;
         let a = self.acct().await?;
         let r = a.read().await;
-        r.sync_status().await.map_err(net_err)
+        let st = r.sync_status().await.map_err(net_err)?;
+        tap!("status-resp", st);
+        Ok(st)
     }
     async fn sync(&self, packet: SyncPacket) -> Result<SyncPacket, Self::Error> {
         self.enter("sync").await;
         let a = self.acct().await?;
         let mut w = a.write().await;
         let details = describe_packet(&packet);
+        tap!("sync-req", packet);
         let res = server_helpers::sync_account::<_, SrvErr>(packet, &mut *w).await;
         drop(w);
         self.server.snap(&self.device, "sync", details, res.is_ok()).await;
         let (packet, _outcome) = res.map_err(net_err)?;
+        tap!("sync-resp", packet);
         Ok(packet)
     }
     async fn scan(&self, request: ScanRequest) -> Result<ScanResponse, Self::Error> {
         self.enter("scan").await;
         let a = self.acct().await?;
         let r = a.read().await;
-        server_helpers::event_scan::<_, SrvErr>(&request, &*r).await.map_err(net_err)
+        tap!("scan-req", request);
+        let resp = server_helpers::event_scan::<_, SrvErr>(&request, &*r).await.map_err(net_err)?;
+        tap!("scan-resp", resp);
+        Ok(resp)
     }
     async fn diff(&self, request: DiffRequest) -> Result<DiffResponse, Self::Error> {
         self.enter("diff").await;
         let a = self.acct().await?;
         let r = a.read().await;
-        server_helpers::event_diff::<_, SrvErr>(&request, &*r).await.map_err(net_err)
+        tap!("diff-req", request);
+        let resp = server_helpers::event_diff::<_, SrvErr>(&request, &*r).await.map_err(net_err)?;
+        tap!("diff-resp", resp);
+        Ok(resp)
     }
     async fn patch(&self, request: PatchRequest) -> Result<PatchResponse, Self::Error> {
         self.enter("patch").await;
@@ -240,11 +284,13 @@ impl SyncClient for DirectClient {
             request.proof.length,
             request.patch.iter().map(|r| hex::encode(r.commit().as_ref())).collect::<Vec<_>>().join(";")
         );
+        tap!("patch-req", request);
         let res = server_helpers::event_patch::<_, SrvErr>(request, &mut *w).await;
         drop(w);
         let applied = matches!(&res, Ok((r, _)) if matches!(r.checked_patch, sos_core::events::patch::CheckedPatch::Success(_)));
         self.server.snap(&self.device, "patch", format!("{details} applied={}", applied as u8), res.is_ok()).await;
         let (resp, _outcome) = res.map_err(net_err)?;
+        tap!("patch-resp", resp);
         Ok(resp)
     }
 }
